@@ -124,6 +124,20 @@ impl Var {
         }
     }
 
+    /// True if the variable (or array) of this name holds strings, by suffix or DEFSTR.
+    pub fn is_string(&self, var_name: &str) -> bool {
+        match var_name.chars().last() {
+            Some('$') => true,
+            Some('!') | Some('#') | Some('%') => false,
+            _ => match var_name.chars().next() {
+                Some(ch) if ch.is_ascii_uppercase() => {
+                    self.types[ch as usize - 'A' as usize] == VarType::String
+                }
+                _ => false,
+            },
+        }
+    }
+
     pub fn store_array(&mut self, var_name: &Rc<str>, arr: Stack<Val>, value: Val) -> Result<()> {
         let key = self.build_array_key(var_name, arr)?;
         self.store(&key, value)
